@@ -9,6 +9,7 @@ def keyOfString (s : String) : Key :=
   match s.toList with
   | '$' :: ds =>
     if ds.isEmpty then .name s
+    else if String.ofList ds ∈ reservedNames then .arg (String.ofList ds)
     else match (String.ofList ds).toNat? with
       | some n => if toString n = String.ofList ds then .pos n else .name s
       | none => .name s
@@ -17,6 +18,7 @@ def keyOfString (s : String) : Key :=
 def keyToString : Key → String
   | .name s => s
   | .pos i => "$" ++ toString i
+  | .arg n => "$" ++ n
 
 def ctxOfJson (j : Json) : Except String Ctx := do
   let kvs ← kvsOfJson j
@@ -95,7 +97,8 @@ def handle (op : String) (j : Json) : Except String Json := do
     let rets ← listOfJson paramOfJson (← j.getObjVal? "rets")
     let ev ← ctxOfJson (← j.getObjVal? "ev")
     let isMain := match j.getObjVal? "main" with | .ok (.bool b) => b | _ => false
-    match createFlowInstance "f" params rets ev with
+    let asIs := match j.getObjVal? "asis" with | .ok (.bool b) => b | _ => false
+    match (if asIs then createFlowInstanceAsIs "f" params rets ev else createFlowInstance "f" params rets ev) with
     | .error e => pure (Json.mkObj [("create", Json.mkObj [("res", "err"), ("err", .str (errToString e))]), ("start", .null)])
     | .ok f =>
       let cj := Json.mkObj [("res", "ok"), ("arguments", ctxToJson f.arguments), ("context", ctxToJson f.context)]
